@@ -1409,7 +1409,7 @@ impl<'c> Gen<'c> {
         let n = 1 + self.c.below(self.opts.top_forms);
         let d = self.opts.max_depth;
         for _ in 0..n {
-            match self.c.weighted(&[5, 5, 3, 2, 2, 3]) {
+            match self.c.weighted(&[5, 5, 3, 2, 2, 3, 2]) {
                 0 => {
                     // expression statement: value is observed
                     let e = match self.c.below(6) {
@@ -1531,6 +1531,53 @@ impl<'c> Gen<'c> {
                     let s0 = self.c.range(0, 5);
                     forms.push(Top::Define(cname.clone(), app(&name, vec![int(s0)])));
                     self.scope.push(VarInfo { name: cname, ty: Ty::Proc { n: 0, rest: false, pure_: false }, mutable: false, global: true });
+                }
+                6 => {
+                    // a global function that is assigned later in the same program: a recursive driver calls it
+                    // before and after the assignment (an inliner must keep calling it through its binding)
+                    let procs: Vec<VarInfo> = self.scope.iter().filter(|v| v.global && matches!(&v.ty, Ty::Proc { n, rest: false, .. } if *n >= 1 && *n <= 3)).cloned().collect();
+                    if procs.is_empty() {
+                        forms.push(Top::Expr(self.int(d, false)));
+                        continue;
+                    }
+                    let f = procs[self.c.below(procs.len())].clone();
+                    let Ty::Proc { n: np, .. } = f.ty.clone() else { unreachable!() };
+                    self.feat("global-function-reassigned");
+                    let drv = self.fresh_global("drv");
+                    let mut call_args = vec![var("x")];
+                    for j in 1..np {
+                        call_args.push(int(j as i64));
+                    }
+                    forms.push(Top::Define(
+                        drv.clone(),
+                        lambda(&["k", "x"], Body::single(iff(app("=", vec![var("k"), int(0)]), var("x"), app(&drv, vec![app("-", vec![var("k"), int(1)]), app("modulo", vec![app(&f.name, call_args), int(1009)])])))),
+                    ));
+                    let k0 = self.c.range(1, 4);
+                    let x0 = self.c.range(0, 9);
+                    forms.push(Top::Expr(app(&drv, vec![int(k0), int(x0)])));
+                    let params = self.distinct_names(np);
+                    let vars: Vec<VarInfo> = params.iter().map(|p| VarInfo { name: p.clone(), ty: Ty::Int, mutable: false, global: false }).collect();
+                    let saved = self.scope.clone();
+                    // the new body does not call the function being assigned (no recursion through the binding)
+                    self.scope.retain(|v| v.name != f.name && v.name != drv);
+                    let body = self.with_scope(vars, |g| g.body_int(d.min(3), true));
+                    self.scope = saved;
+                    let assign = set(&f.name, Expr::Lambda(Box::new(LambdaDef { params, opt: vec![], rest: None, body })));
+                    if self.c.chance(1, 2) {
+                        forms.push(Top::Expr(begin(vec![assign, int(0)])));
+                    } else {
+                        // assigned from inside another function, after the first call
+                        let rt = self.fresh_global("retarget");
+                        forms.push(Top::Define(rt.clone(), lambda(&[], Body { defs: vec![], exprs: vec![assign, int(0)] })));
+                        forms.push(Top::Expr(app(&rt, vec![])));
+                    }
+                    forms.push(Top::Expr(app(&drv, vec![int(k0), int(x0)])));
+                    // later code sees an impure procedure of the same shape
+                    for v in self.scope.iter_mut() {
+                        if v.name == f.name {
+                            v.ty = Ty::Proc { n: np, rest: false, pure_: false };
+                        }
+                    }
                 }
                 _ => {
                     if self.opts.output {
